@@ -675,6 +675,84 @@ func clean(args []string, follow map[byte]bool) bool {
 	return true
 }
 
+// checkEscaped: templates whose static text carries percent-escapes.  Every spelling of a request
+// path that normalises (RFC 3986 6.2.2) to an instance of template i must be served by template i
+// (GET), by ServeHTTP and by FindPath alike; spellings: each escape of the template in upper-case hex,
+// lower-case hex and - for unreserved octets - as the literal character; parameter values plain and
+// with an escaped slash.  Requests are built the way net/http builds them (url.ParseRequestURI).
+func checkEscaped(e entry) {
+	var gotOp string
+	var gotParams map[string]string
+	mw := func(req middleware.Request, next middleware.Next) (middleware.Response, error) {
+		gotOp = req.OperationName
+		gotParams = map[string]string{}
+		return middleware.Response{}, fmt.Errorf("stop")
+	}
+	srv, findPath := e.mk(mw, "")
+	var evals int64
+	for ti, t := range e.templates {
+		// spellings of the static text
+		spell := []string{""}
+		rest := t
+		for rest != "" {
+			var alts []string
+			switch {
+			case rest[0] == '%' && len(rest) >= 3:
+				esc := rest[:3]
+				alts = []string{strings.ToUpper(esc), "%" + strings.ToLower(esc[1:])}
+				rest = rest[3:]
+			case rest[0] == '{':
+				j := strings.IndexByte(rest, '}')
+				alts = []string{"val", "v%2Fw", "v%20w"}
+				rest = rest[j+1:]
+			default:
+				alts = []string{rest[:1]}
+				if isUnreserved(rest[0]) && rest[0] != '/' {
+					alts = append(alts, fmt.Sprintf("%%%02X", rest[0]))
+				}
+				rest = rest[1:]
+			}
+			var next []string
+			for _, sp := range spell {
+				for _, a := range alts {
+					next = append(next, sp+a)
+				}
+			}
+			spell = next
+			if len(spell) > 4096 {
+				spell = spell[:4096]
+			}
+		}
+		for _, target := range spell {
+			u, err := url.ParseRequestURI(target)
+			if err != nil {
+				continue
+			}
+			evals++
+			o := serve(srv, "GET", "http://x"+target, &gotOp, &gotParams)
+			goCanonical := fmt.Sprint(u.RawPath == "")
+			k := kase{Templates: e.templates, Method: "GET", Path: target, Expected: fmt.Sprintf("served by template %d %s (URL.Path=%q RawPath=%q)", ti, t, u.Path, u.RawPath)}
+			if o.pan != "" {
+				k.Observed = "panic: " + o.pan
+				drv.Violation(map[string]string{"class": "router-panic"}, len(target), k)
+				continue
+			}
+			if o.reached != ti {
+				k.Observed = fmt.Sprintf("status %d, operation %q", o.status, o.op)
+				drv.Violation(map[string]string{"class": "S7-equivalent-spelling-of-escaped-static-text-not-served", "go_canonical": goCanonical}, len(target), k)
+			}
+			name, _, ok := findPath("GET", u)
+			if (ok && o.reached < 0) || (!ok && o.reached >= 0) || (ok && !strings.EqualFold(name, o.op)) {
+				k.Observed = fmt.Sprintf("ServeHTTP reached %q, FindPath says %q %v", o.op, name, ok)
+				drv.Violation(map[string]string{"class": "S4-FindPath-disagrees-with-serving/escaped-static", "go_canonical": goCanonical}, len(target), k)
+			}
+		}
+	}
+	drv.Eval(evals)
+	drv.NontrivialN(evals)
+	drv.Stat("escaped_static_requests", evals)
+}
+
 func main() {
 	ch := make(chan entry, len(registry))
 	var wg sync.WaitGroup
@@ -683,7 +761,17 @@ func main() {
 		go func() {
 			defer wg.Done()
 			for e := range ch {
-				checkEntry(e)
+				escaped := false
+				for _, t := range e.templates {
+					if strings.Contains(t, "%") {
+						escaped = true
+					}
+				}
+				if escaped {
+					checkEscaped(e)
+				} else {
+					checkEntry(e)
+				}
 			}
 		}()
 	}
